@@ -284,6 +284,32 @@ def p3_group(out):
         out.notes.append(msg)
 
 
+def builder_family(out, clauses):
+    """Histories of builder calls (TextDiffConfig / UnifiedDiff setters in any order), validated
+    event by event against spec/abstract/Builder.tla."""
+    trace = drive(out, "builder")
+    res = core.validate("TraceBuilder", trace, out.prop)
+    n = sum(1 for line in open(trace) if '"ev":"bstart"' in line)
+    out.add("evaluations", n)
+    out.add("traces_validated_against_impl", n)
+    out.add("builder_histories", n)
+    rej = [(c, [x for x in cl if x in clauses], ln) for c, cl, ln in res["rejects"]]
+    rej = [r for r in rej if r[1]]
+    if rej:
+        d = core.REPLAYS / out.prop
+        d.mkdir(parents=True, exist_ok=True)
+        lines = open(trace).read().splitlines(True)
+        for c, cl, ln in rej[:6]:
+            # the case = from its bstart line to the rejected line
+            a = ln - 1
+            while a > 0 and '"ev":"bstart"' not in lines[a]:
+                a -= 1
+            p = d / f"builder_{int(time.time())}_{c}.ndjson"
+            p.write_text(json.dumps({"ev": "replay_meta", "property": out.prop, "family": "builder", "clauses": cl}) + "\n" +
+                         "".join(lines[a:ln]))
+            out.violation(f"builder history case {c}: clause(s) {cl}", p)
+
+
 def alg_cfgs(out, algs, faults=False):
     if faults:
         return [f"MCAlg_{a}_faults" + ("_t" if out.tier == "thorough" else "") for a in algs] + \
@@ -561,6 +587,7 @@ def c07(out):
     out.level = "model_checking"
     p2(out, "MCAlgs.tla", alg_cfgs(out, ["myers", "lcs", "patience"], faults=True))
     p3_alg(out, ["myers", "lcs", "patience"], C07_CLAUSES - {"never_eq", "plumbing"}, faults=True, keep=lambda b: b["failed"] == -1)
+    builder_family(out, {"builder_deadline"})
     finish_counts(out)
 
 
@@ -769,6 +796,7 @@ def c14(out):
                  "(TextA!IdentifyViol); non-trivial = a side has > 100 tokens and the diff has a change, resp. an item repeated across "
                  "sides", sample_keys=("ev", "alg", "kind", "mode", "ntok_old", "ntok_new", "text_ops", "int", "old_ids", "new_ids"))
     p2(out, "MCIdentify.tla", ["MCIdentify" + ("_t" if out.tier == "thorough" else "")], coverage=False)
+    builder_family(out, {"builder_algorithm", "builder_newline", "panic"})
     finish_counts(out)
 
 
@@ -900,6 +928,7 @@ def c05(out):
     sfx = "_t" if out.tier == "thorough" else ""
     p2(out, "MCUdiff.tla", ["MCUdiff" + sfx, "MCUdiffRepair" + sfx], coverage=False)
     expect_violation(out, "MCUdiff.tla", "MCUdiffWitness", "AlwaysAccepted")
+    builder_family(out, {"builder_render"})
     finish_counts(out)
 
 
